@@ -32,7 +32,7 @@ def main():
         shutil.copy(demo, os.path.join(out, os.path.basename(demo)))
         demo = os.path.join(out, os.path.basename(demo))     # run the copy: a script's own directory precedes PYTHONPATH
         src = open(demo).read().splitlines()
-        src = [('pass  # (worktree path assertion removed for the recorded copy)' if ('rockit.__file__' in l and 'assert' in l) else l) for l in src]
+        src = [((l[:len(l) - len(l.lstrip())] + 'pass  # (worktree path assertion removed for the recorded copy)' + ('\n' if l.endswith('\n') else '')) if ('rockit.__file__' in l and 'assert' in l) else l) for l in src]
         open(demo, 'w').write('\n'.join(src) + '\n')
     d = tempfile.mkdtemp(prefix='rvseed_')
     meta = {'seed': sid, 'breaks_property': prop, 'files': sorted({l[6:] for l in diff.splitlines() if l.startswith('+++ b/')})}
